@@ -8,9 +8,10 @@
   Status: PARTIAL.  `C11_full` is false on the pinned tree (counterexample theorems below, each replayed on the
   real engine through corpus/query/*.ops; two former counterexamples were repaired by `fix:` commits).  `C11_partial_statement` (the full statement restricted to inputs
   that trigger no known finding) is the target; what is proved so far are the operator lemmas `op*`, stated over
-  all graphs / tables / expressions.
+  all graphs / tables / rows / expressions.
 -/
 import Nervus.Proofs.CypherOps
+import Nervus.Proofs.CypherExpand
 import Nervus.Model.QRun
 import Nervus.Model.QAlgebra
 namespace Nervus.Props.C11
@@ -35,6 +36,24 @@ theorem op1_scan_label (A : Algebra) (env : Env) (hg : env.g.NodesDistinct) (a :
     Exec.exec A env (Compile.applyLabelFilters (.nodeScan a labels.head?) a labels) =
       .ok ((Spec.matchPath A env used [] ⟨⟨some a, labels, []⟩, []⟩).map (·.1)) :=
   scan_label_correct A env hg a labels used
+
+/-- op 2 (outgoing hop): on a graph without parallel copies, for a row whose hidden path column holds the
+    relationships used so far in this chain, the rows MatchOut yields (hidden column erased) are — as a bag — the
+    rows one step `-[ev:rels]->(d:dl)` of the reference pattern matching yields.  (`ev` is a fresh variable or
+    absent; `d` may be fresh or already bound; label constraints travel in `dst_labels`.) -/
+theorem op2_expand_out (A : Algebra) (g : Graph) (hnp : NoParallel g) (r : Row) (a : Nat) (rels : List String)
+    (hrels : rels.Nodup) (ev : Option String) (d pa : String) (dl : List String) (used : List RelId)
+    (hpa : PathRel r pa used) (hd : d ≠ pa)
+    (hev : ∀ x, ev = some x → x ≠ pa ∧ x ≠ d ∧ r.get x = none) :
+    ((Exec.stepOut g r a rels ev d dl (some pa)).map (eraseCol pa)).Perm
+      ((Spec.matchSteps A { g } used a (eraseCol pa r) [(⟨ev, rels, .out, []⟩, ⟨some d, dl, []⟩)]).map (·.1)) :=
+  expand_out_row A g hnp r a rels hrels ev d pa dl used hpa hd hev
+
+/-- op 2': the engine's "already used" test is membership in the reference's `used` set when no identity has
+    parallel copies -/
+theorem op2_path_uniqueness (g : Graph) (hnp : NoParallel g) (r : Row) (pa : String) (used : List RelId) (e : RelId)
+    (hpa : PathRel r pa used) : Exec.pathContains g r (some pa) e = used.contains e :=
+  pathContains_eq g hnp r pa used e hpa
 
 /-- op 3: Filter = reference WHERE -/
 theorem op3_where (A : Algebra) (env : Env) (i : Plan) (e : Expr) (T : Table) (h : Exec.exec A env i = .ok T) :
@@ -84,6 +103,11 @@ def g1 : Graph :=
    [⟨⟨0, "T", 1⟩, 1, []⟩, ⟨⟨1, "T", 2⟩, 1, []⟩, ⟨⟨2, "U", 2⟩, 1, []⟩]⟩
 
 example : g1.NodesDistinct := by decide
+example : NoParallel g1 := noParallel_of_nodup (by decide)
+example : PathRel [("a", .node 0)] "__nervus_internal_path_0" [] := rfl
+example : PathRel [("a", .node 0), ("__nervus_internal_path_0", .path [0, 1] [⟨0, "T", 1⟩])]
+    "__nervus_internal_path_0" [⟨0, "T", 1⟩] := by
+  intro e; simp [Row.get, List.lookup]
 
 /-- `MATCH (n:A) WHERE n.k > 1 RETURN n.k AS k` -/
 def q1 : Query :=
